@@ -41,19 +41,19 @@ func SplitOnUniqueMaterials(m modeling.Mesh) []modeling.Mesh {
 
 	orinalIndices := m.Indices()
 	for triStart := 0; triStart < orinalIndices.Len(); triStart += 3 {
-		if originalMaterials[curMatIndex].PrimitiveCount+trisFromOtherMats <= triStart/3 {
+		for originalMaterials[curMatIndex].PrimitiveCount+trisFromOtherMats <= triStart/3 {
 			trisFromOtherMats += originalMaterials[curMatIndex].PrimitiveCount
 			curMatIndex++
-			if _, ok := workingMeshes[originalMaterials[curMatIndex].Material]; !ok {
-				workingMeshes[originalMaterials[curMatIndex].Material] = &workingMesh{
-					material: modeling.MeshMaterial{
-						PrimitiveCount: 0,
-						Material:       originalMaterials[curMatIndex].Material,
-					},
-					indices: make([]int, 0),
-				}
-				orderInserted[originalMaterials[curMatIndex].Material] = len(orderInserted)
+		}
+		if _, ok := workingMeshes[originalMaterials[curMatIndex].Material]; !ok {
+			workingMeshes[originalMaterials[curMatIndex].Material] = &workingMesh{
+				material: modeling.MeshMaterial{
+					PrimitiveCount: 0,
+					Material:       originalMaterials[curMatIndex].Material,
+				},
+				indices: make([]int, 0),
 			}
+			orderInserted[originalMaterials[curMatIndex].Material] = len(orderInserted)
 		}
 		mesh := workingMeshes[originalMaterials[curMatIndex].Material]
 		mesh.indices = append(
